@@ -10,12 +10,17 @@ AUTH_FAULTS = [
     "A.origin-other-host", "A.origin-case", "A.origin-trailing-slash", "A.origin-scheme",
     "A.origin-proper-prefix", "A.origin-infix", "A.origin-empty",
     "A.expected-origin-trailing-slash", "A.expected-origin-surrounding-space",
+    "A.cdj-undecodable-byte-in-origin", "A.cdj-undecodable-byte-in-type", "A.rpid-hash-of-idna-form", "A.rpid-hash-of-lowercase",
     "A.rpid-other", "A.rpid-uppercase", "A.up-clear", "A.uv-clear-required",
     "A.id-other-credential", "A.id-padded", "A.id-std-alphabet", "A.cred-type",
     "A.sig-other-key", "A.sig-authdata-only", "A.sig-unhashed-cdj", "A.sig-other-hash",
     "A.key-declares-other-alg", "A.tb-not-supported", "A.ctr-equal", "A.ctr-smaller", "A.ctr-zero-vs-pos",
     "A.bs-without-be",
 ]
+
+# faults that make the response *malformed* (client data that is not UTF-8 text): C01 still demands rejection, but C19's
+# "well-formed response rejected for a semantic reason" does not speak about them
+MALFORMED = {"A.cdj-undecodable-byte-in-origin", "A.cdj-undecodable-byte-in-type"}
 
 # which other algorithm the same private key can (mis)use
 OTHER_ALG = {core.ES256: core.ES512, core.ES512: core.ES256, core.RS256: core.RS384, core.RS384: core.RS512,
@@ -92,6 +97,13 @@ def build_assertion(cred, *, rp_id="example.com", challenge=b"\x01" * 32, origin
         expected_origin = origin + "/" if origin_list is None else [o + "/" for o in origin_list]
     if "A.expected-origin-surrounding-space" in faults:
         expected_origin = " " + origin if origin_list is None else [o + " " for o in origin_list]
+    if "A.rpid-hash-of-idna-form" in faults:
+        # the RP expects a non-ASCII RP ID; the authenticator data carries the hash of a *different string* (its A-label form)
+        rp_id = "b\u00fccher.example"
+        ad_rp = rp_id.encode("idna").decode("ascii")
+    if "A.rpid-hash-of-lowercase" in faults:
+        rp_id = "Login.Example.com"
+        ad_rp = rp_id.lower()
     if "A.rpid-other" in faults:
         ad_rp = "other.example"
     if "A.rpid-uppercase" in faults:
@@ -125,6 +137,12 @@ def build_assertion(cred, *, rp_id="example.com", challenge=b"\x01" * 32, origin
     fl = flags | (ED if ext is not None else 0)
     ad = core.auth_data(core.sha256(ad_rp.encode()), fl, counter, ext=ext)
     cdj = core.client_data(typ, cd_challenge, cd_origin, **cd_kwargs)
+    # bytes that are not UTF-8 inside a member: the client data is then not the JSON text the RP expects, whatever a
+    # lenient decoder would make of it (what is signed is these very bytes)
+    if "A.cdj-undecodable-byte-in-origin" in faults:
+        cdj = cdj.replace(b"https://", b"https://\xff", 1) if b"https://" in cdj else cdj + b"\xff"
+    if "A.cdj-undecodable-byte-in-type" in faults:
+        cdj = cdj.replace(b"webauthn.", b"webauthn.\xfe", 1) if b"webauthn." in cdj else cdj + b"\xfe"
     if "A.sig-authdata-only" in faults:
         kw["sign_data"] = ad
     if "A.sig-unhashed-cdj" in faults:
